@@ -312,6 +312,28 @@ def setter_effects(F):
     return out
 
 
+def norm_val(v):
+    return "|".join(sorted(v)) if isinstance(v, frozenset) else v
+
+
+def setter_tables(F):
+    """{setter: (fn, rows)}; a row is {"cond": [[term, value]...], "side": {field: value}, "delegates": [...]}
+    or {"cond": [...], "end": "panic"}; `side` excludes the setter's own field."""
+    out = {}
+    for name, (f, rows) in setter_effects(F).items():
+        trs = []
+        for cond, stores, extra in rows:
+            c = sorted([fmt(t), norm_val(v)] for t, v in cond)
+            if stores is None:
+                trs.append({"cond": c, "end": extra})
+            else:
+                trs.append({"cond": c, "side": {k: val_repr(v) for k, v in sorted(stores.items()) if k != name},
+                            "delegates": extra})
+        trs.sort(key=lambda r: json.dumps(r, sort_keys=True))
+        out[name] = (f, trs)
+    return out
+
+
 def load_table(name):
     return json.load(open(os.path.join(os.path.dirname(__file__), "tables", name)))
 
@@ -417,6 +439,7 @@ def r5_cli(F, res):
     rid6 = res.rule("C17-R5b", "every Settings setter stores its parameter into the field of its own name; "
                     "side effects equal the documented table", floor=20)
     spec = load_table("settings_setters.json")
+    tables = setter_tables(F)
     side = {}
     for name, (f, rows) in sorted(effects.items()):
         if f.argc < 2:
@@ -424,7 +447,7 @@ def r5_cli(F, res):
             pass
         table_rows = []
         for cond, stores, extra in rows:
-            c = sorted((fmt(t), v) for t, v in cond)
+            c = sorted((fmt(t), norm_val(v)) for t, v in cond)
             if stores is None:
                 table_rows.append({"cond": c, "end": extra})
                 continue
@@ -450,16 +473,8 @@ def r5_cli(F, res):
                     res.violation(rid6, "setter/%s/polarity" % name,
                                   "Settings::%s stores the negation of its parameter" % name, f.loc())
         side[name] = table_rows
-        # side effects vs spec
+        got_side = tables[name][1]
         exp = spec.get(name)
-        got_side = []
-        for r in table_rows:
-            if "stores" not in r:
-                got_side.append({"cond": cond_key(r["cond"]), "end": r["end"]})
-                continue
-            extra = {k: v for k, v in r["stores"].items() if k != name}
-            got_side.append({"cond": cond_key(r["cond"]), "side": extra, "delegates": r["delegates"]})
-        got_side.sort(key=lambda r: json.dumps(r, sort_keys=True))
         if exp is None:
             trivial = all(r.get("side") == {} and not r.get("delegates") for r in got_side)
             if trivial:
